@@ -23,7 +23,7 @@ if ! git -C /repo diff --quiet; then echo "/repo is dirty, refusing"; exit 2; fi
 git -C /repo apply /verif/seeded/$id/patch.diff || { echo "patch does not apply"; exit 2; }
 results=""
 for p in $props; do
-  out=$(./check $p 2>&1 | tail -3 | tr '\n' ' ' | cut -c1-700)
+  out=$(./check $p 2>&1 | grep -v '^KNOWN-FINDING' | tail -3 | tr '\n' ' ' | cut -c1-900)
   results="$results\n  $p: $out"
 done
 git -C /repo checkout -- .
